@@ -265,17 +265,11 @@ impl Tour {
     /// Return the path given by the segment.
     pub fn sub_path(&self, segment: Segment) -> Result<Path, String> {
         let start_pos = self
-            .latest_not_reaching_node(segment.start())
-            .ok_or_else(|| String::from("segment.start() not part of Tour."))?;
-        if segment.start() != self.nodes[start_pos] {
-            return Err(String::from("segment.start() not part of Tour."));
-        }
+            .position_of(segment.start())
+            .map_err(|_| String::from("segment.start() not part of Tour."))?;
         let end_pos = self
-            .latest_not_reaching_node(segment.end())
-            .ok_or_else(|| String::from("segment.end() not part of Tour."))?;
-        if segment.end() != self.nodes[end_pos] {
-            return Err(String::from("segment.end() not part of Tour."));
-        }
+            .position_of(segment.end())
+            .map_err(|_| String::from("segment.end() not part of Tour."))?;
         if start_pos > end_pos {
             return Err(String::from("segment.start() is after segment.end()."));
         }
